@@ -23,6 +23,12 @@ pub struct Cycle {
     pub extra: Vec<Gui>,
     /// commands a GUI may legitimately send while the search is running (ucinewgame, debug, isready, uci)
     pub during: Vec<Gui>,
+    /// decided at run time: continue the previous position with the engine's bestmove and ponder move
+    pub follow_ponder: bool,
+    /// decided at run time: the previous move list with one *earlier* move replaced (same length, same last move)
+    pub sibling: bool,
+    /// a stop sent after the answer has arrived (GUI race); must be ignored
+    pub late_stop: bool,
 }
 
 #[derive(Clone, Debug)]
@@ -204,4 +210,25 @@ pub fn run_cycle(d: &mut dyn Driver, c: &Cycle) -> CycleResult {
 
 pub fn set_poll(n: u64) {
     hook::set_poll_interval(n);
+}
+
+/// A move list of the same length and with the same last move as `moves`, but with one earlier move
+/// replaced, still legal from `fen` and ending in a different position.
+pub fn sibling_moves(rng: &mut StdRng, fen: &Option<String>, moves: &[String]) -> Option<Vec<String>> {
+    if moves.len() < 2 { return None; }
+    let (orig_end, _) = position_of(fen, moves)?;
+    for _ in 0..12 {
+        let j = rng.gen_range(0..moves.len() - 1);
+        let (at, _) = position_of(fen, &moves[..j])?;
+        let mut alts: Vec<String> = at.legal_moves().iter().map(|m| m.uci()).filter(|u| u != &moves[j]).collect();
+        alts.shuffle(rng);
+        for a in alts.into_iter().take(8) {
+            let mut v = moves.to_vec();
+            v[j] = a;
+            if let Some((end, _)) = position_of(fen, &v) {
+                if end.key() != orig_end.key() && !end.legal_moves().is_empty() { return Some(v); }
+            }
+        }
+    }
+    None
 }
